@@ -93,7 +93,7 @@ ADVISORY_RE = _re.compile(
     r"|ifelse\.recreate\.non_constant_keeps_both_branches|loop\.recreate\.|block\.recreate\.statements_recreated"
     r"|set\.recreate\.|setifelse\.recreate\.|binop\.recreate\.dispatch_|unop\.recreate\.dispatch_"
     r"|\.fold\.constants_equal_exec|with_exec\.constants_folded_by_exec|iws\.recreate\.delegates"
-    r"|arrayrepeat\.fold\.constants_equal_exec)")
+    r"|arrayrepeat\.fold\.constants_equal_exec|\.fold1\.constant_equals_exec)")
 
 
 def is_advisory(oid):
